@@ -343,6 +343,20 @@ type baton struct {
 	// that matter open right behind such operations.
 	syncBias      bool
 	syncCountdown int
+	syncOps       int // synchronisation operations seen
+	syncSwitches  int // hand-overs made because of one
+	// "pair" strategy (adversarial pairs): when a task releases a synchronisation object,
+	// it is descheduled a few yields later, somebody else runs undisturbed until it touches
+	// the SAME object, and a little after that the first task is resumed. The window between
+	// "gave it back" and "finished using what it gave back" is then crossed by another
+	// caller whenever the code has such a window.
+	pairBias      bool
+	pairPhase     int // 0 idle, 1 about to leave the releaser, 2 others run, 3 about to return
+	pairFrom      int
+	pairAddr      uintptr
+	pairCountdown int
+	pairSince     int
+	pairStats     [4]int // armed, left the releaser, partner touched the object, returned
 }
 
 func (b *baton) runnable() []int {
@@ -392,9 +406,52 @@ func (b *baton) choose(curDone bool) int {
 		}
 		return best
 	}
+	if b.pairBias && b.pairPhase != 0 {
+		alive := false
+		for _, r := range run {
+			if r == b.pairFrom {
+				alive = true
+			}
+		}
+		switch {
+		case !alive || len(run) < 2 || b.step-b.pairSince > 400_000:
+			b.pairPhase = 0 // nothing to pair with any more
+		case b.pairPhase == 1 && cur == b.pairFrom:
+			if b.pairCountdown--; b.pairCountdown <= 0 {
+				b.pairPhase, b.pairSince = 2, b.step
+				b.syncSwitches++
+				b.pairStats[1]++
+				for {
+					if r := run[b.rng.Intn(len(run))]; r != cur {
+						return r
+					}
+				}
+			}
+			return cur
+		case b.pairPhase == 2:
+			if cur >= 0 && cur != b.pairFrom {
+				return cur // undisturbed
+			}
+			for _, r := range run {
+				if r != b.pairFrom {
+					return r
+				}
+			}
+		case b.pairPhase == 3:
+			if b.pairCountdown--; b.pairCountdown <= 0 {
+				b.pairPhase = 0
+				b.pairStats[3]++
+				return b.pairFrom
+			}
+			if cur >= 0 {
+				return cur
+			}
+		}
+	}
 	if b.syncCountdown > 0 && cur >= 0 {
 		b.syncCountdown--
 		if b.syncCountdown == 0 && len(run) > 1 {
+			b.syncSwitches++
 			for {
 				if r := run[b.rng.Intn(len(run))]; r != cur {
 					return r
@@ -596,11 +653,11 @@ func runC14(c *Ctx) *Replay {
 		}
 		tasks = append(tasks, ts)
 	}
-	strategy := []string{"random", "pct", "random", "sync"}[r.Intn(4)]
+	strategy := []string{"random", "pct", "random", "sync", "pair"}[r.Intn(5)]
 	sc.Extra["strategy"] = strategy
 	sc.Extra["seed"] = fmt.Sprint(r.Uint64())
 	sc.Extra["switch_p"] = fmt.Sprint([]int{2, 8, 64, 512}[r.Intn(4)])
-	if strategy == "sync" {
+	if strategy == "sync" || strategy == "pair" {
 		sc.Extra["switch_p"] = fmt.Sprint([]int{64, 512, 4096}[r.Intn(3)])
 	}
 	sc.Extra["pct_d"] = fmt.Sprint(r.Range(1, 3))
@@ -622,6 +679,16 @@ func runC14(c *Ctx) *Replay {
 	c.State("c14", strings.Join(ops, ","), strategy, sc.Extra["import"], fmt.Sprint(spare > 0), sc.Extra["trace_hash"])
 	c.Count("switches", int64(len(sc.Switches)))
 	c.Count("yields", atoiDefault(sc.Extra["steps"], 0))
+	c.Count("sync_ops", atoiDefault(sc.Extra["sync_ops"], 0))
+	c.Count("sync_switches", atoiDefault(sc.Extra["sync_switches"], 0))
+	{
+		var a0, a1, a2, a3 int64
+		fmt.Sscan(sc.Extra["pair_stats"], &a0, &a1, &a2, &a3)
+		c.Count("pair_armed", a0)
+		c.Count("pair_left", a1)
+		c.Count("pair_touched", a2)
+		c.Count("pair_returned", a3)
+	}
 	if c.Run%50 == 0 {
 		c.Sample(map[string]interface{}{"program": p.ID, "tasks": tasks, "import": withImport, "spare_capacity": spare, "strategy": strategy, "switches": len(sc.Switches), "yields": sc.Extra["steps"]})
 	}
@@ -821,6 +888,8 @@ func execConcurrent(n *Node, sc *Scenario) *Violation {
 		b.tasks = append(b.tasks, &batonTask{id: i, resume: make(chan struct{}), ts: simrt.NewTaskState(i, ts.MapOrder.Strategy, ts.MapOrder.Seed)})
 	}
 	switch sc.Extra["strategy"] {
+	case "pair":
+		b.pairBias = true
 	case "sync":
 		b.syncBias = true
 	case "plan":
@@ -882,6 +951,21 @@ func execConcurrent(n *Node, sc *Scenario) *Violation {
 		if b.cur != nil {
 			b.onSwitch(b.cur.id)
 		}
+		b.syncOps++
+		if b.pairBias && b.cur != nil {
+			switch {
+			case b.pairPhase == 0 && kind == "release" && b.rng.Chance(3, 4):
+				b.pairPhase, b.pairFrom, b.pairAddr, b.pairCountdown, b.pairSince = 1, b.cur.id, addr, 1+b.rng.Intn(3), b.step
+				b.pairStats[0]++
+			case b.pairPhase == 2 && addr == b.pairAddr && b.cur.id != b.pairFrom:
+				// the partner goes on for 1..2^16 yields (log-uniform): from "has just taken
+				// it" to "has long finished with it"
+				b.pairPhase, b.pairCountdown = 3, 1+b.rng.Intn(1<<uint(1+b.rng.Intn(16)))
+				b.pairStats[2]++
+			case b.pairPhase == 3 && addr == b.pairAddr && kind == "release" && b.cur.id != b.pairFrom:
+				b.pairCountdown = 1 // the partner gave it back: time to return
+			}
+		}
 		if b.syncBias && b.syncCountdown == 0 && b.rng.Chance(1, 2) {
 			b.syncCountdown = 1 + b.rng.Intn(8)
 		}
@@ -911,6 +995,9 @@ func execConcurrent(n *Node, sc *Scenario) *Violation {
 		sc.Switches = append(sc.Switches, s)
 	}
 	sc.Extra["steps"] = fmt.Sprint(b.step)
+	sc.Extra["sync_ops"] = fmt.Sprint(b.syncOps)
+	sc.Extra["sync_switches"] = fmt.Sprint(b.syncSwitches)
+	sc.Extra["pair_stats"] = fmt.Sprint(b.pairStats[0], b.pairStats[1], b.pairStats[2], b.pairStats[3])
 	h := fnv.New64a()
 	for _, s := range b.trace {
 		fmt.Fprintf(h, "%d:%d,", s.Step, s.Task)
